@@ -201,6 +201,50 @@ class Interp:
             return ("e", ec[0], ec[1])
         return None
 
+    def _known_ctor_quals(self) -> set[str]:
+        kq = self.__dict__.get("_kq")
+        if kq is None:
+            import os
+
+            try:
+                with open(os.path.join(os.path.dirname(os.path.abspath(__file__)), "known_funcs.txt")) as fh:
+                    kq = {ln.strip() for ln in fh if ln.strip().endswith(".__init__")}
+            except OSError:
+                kq = set()
+            self.__dict__["_kq"] = kq
+        return kq
+
+    def _module_const(self, name: str, fi: FuncInfo) -> Any:
+        """a module-level name bound exactly once to a constant / enum member (or its .value / .name): its value"""
+        if name in self.prog.func_locals(fi) or any(name in self.prog.func_locals(f) for f in self._parents(fi)):
+            return None
+        k, pl = self.prog.lookup_name(name, fi, fi.module)
+        if k != "assign":
+            return None
+        m, val = pl
+        cache = self.__dict__.setdefault("_mconst", {})
+        ck = (m.name, name)
+        if ck not in cache:
+            cache[ck] = None
+            n_bind = sum(1 for n in ast.walk(m.tree) if (isinstance(n, ast.Name) and n.id == name and isinstance(n.ctx, (ast.Store, ast.Del))) or (isinstance(n, ast.Global) and name in n.names))
+            if n_bind == 1:
+                stub = FuncInfo(f"{m.name}:<module>", m, ast.parse("def _m(): pass").body[0])
+                if isinstance(val, ast.Constant) and (val.value is None or isinstance(val.value, (bool, int, float, str))):
+                    cache[ck] = ("c", val.value)
+                elif isinstance(val, ast.Attribute):
+                    ec = self.enum_value(val, stub)
+                    if ec is None and val.attr in ("value", "name") and isinstance(val.value, ast.Attribute):
+                        ec = self.enum_value(val.value, stub)
+                    cache[ck] = ec
+        return cache[ck]
+
+    @staticmethod
+    def _parents(fi: FuncInfo):
+        f = fi.parent
+        while f is not None:
+            yield f
+            f = f.parent
+
     def path_of(self, e: ast.expr) -> Path | None:
         if isinstance(e, ast.Name):
             return (e.id,)
@@ -261,6 +305,10 @@ class Interp:
                     v = self.record_at(env, al[1] + p[1:])
                     if v is not None:
                         return v
+            if isinstance(e, ast.Name) and (e.id,) not in env:
+                mc = self._module_const(e.id, fi)
+                if mc is not None:
+                    return mc
             if isinstance(e, ast.Attribute):
                 ec = self.enum_value(e, fi)
                 if ec is not None:
@@ -332,7 +380,10 @@ class Interp:
             return None
         if isinstance(cond, ast.Call) and isinstance(cond.func, ast.Name) and cond.func.id == "isinstance" and len(cond.args) == 2:
             v = self.ev(cond.args[0], env, cfg)
-            return self._isinstance(v, cond.args[1], cfg)
+            r = self._isinstance(v, cond.args[1], cfg)
+            if r is None and v is None:
+                r = self._isinstance_by_type(cond.args[0], cond.args[1], cfg)
+            return r
         if isinstance(cond, ast.UnaryOp) and isinstance(cond.op, ast.Not):
             t = self.truth(cond.operand, env, cfg)
             return None if t is None else (not t)
@@ -390,6 +441,27 @@ class Interp:
             return hit
         if v == ("c", None):
             return False
+        return None
+
+    def _isinstance_by_type(self, e: ast.expr, cls_expr: ast.expr, cfg: CFG) -> bool | None:
+        """nothing is known about the value, but its declared type is a repository class (not Optional, not a union
+        with anything else) that is a subclass of the tested class: the test holds (annotations are trusted, as in
+        call resolution).  Never answers False."""
+        try:
+            t = self.prog.type_of(e, cfg.func)
+        except AnalysisError:
+            return None
+        if not t or not all(a[0] == "cls" and a[1] in self.prog.classes for a in t):
+            return None
+        exprs = cls_expr.elts if isinstance(cls_expr, ast.Tuple) else [cls_expr]
+        tested: set[str] = set()
+        for x in exprs:
+            tx = self.prog.type_of(x, cfg.func)
+            tested |= {a[1] for a in tx if a[0] == "type"}
+        if not tested:
+            return None
+        if all(tested & {c.qual for c in self.prog.mro(self.prog.classes[a[1]])} for a in t):
+            return True
         return None
 
     def refine(self, cond: ast.expr, branch: bool, env: dict, cfg: CFG) -> dict | None:
@@ -489,6 +561,9 @@ class Interp:
                     known = {ln.strip() for ln in fh if ln.strip()}
             except OSError:
                 known = set(self.prog.classes)
+            # a known class moved to another module is still that class (name unique among the known ones)
+            tails = [k.split(":", 1)[-1] for k in known]
+            known |= {q for q in self.prog.classes if q not in known and tails.count(q.split(":", 1)[-1]) == 1 and not any(k != q and k in self.prog.classes and k.split(":", 1)[-1] == q.split(":", 1)[-1] for k in known)}
             self.__dict__["_known_classes"] = known
         if ty[1] not in self.prog.classes or ty[1] in known:
             return False
@@ -797,6 +872,15 @@ class Interp:
                 v = self.ev(d, {}, cfg_callee)
                 if v is not None:
                     self._assign(new, (pname,), v)
+        if fi.parent is not None and fi.parent is cfg.func:
+            # a closure of the calling function: its free variables are the caller's locals, read (and written through)
+            # at the time of the call
+            own = set(self.prog.func_locals(fi))
+            outer = self.prog.func_locals(cfg.func)
+            free = {n.id for n in ast.walk(fi.node) if isinstance(n, ast.Name) and isinstance(n.ctx, ast.Load) and n.id not in own and n.id in outer}
+            for name in sorted(free):
+                if name not in bound:
+                    bind(name, ast.copy_location(ast.Name(id=name, ctx=ast.Load()), call))
         return new, links
 
     def _apply_exit_env(self, env: dict, ex: Exit, links: list[tuple[str, Path]]) -> dict:
@@ -840,7 +924,10 @@ class Interp:
                     cs_in = self.client.on_event(Event("enter", node, cfg, self, env, stack, target=tg), cs)
                     cenv, links = self._bind(call, tg, env, cfg)
                     rd = self.prog.reads(callee)
-                    cenv = {p: v for p, v in cenv.items() if len(p) < 2 or p[-1] in rd or p[-1] == "$type" or self._is_param_object(cenv.get(p[:-1] + ("$type",)))}
+                    if tg.kind != "ctor" or callee.qual in self._known_ctor_quals():
+                        # (a constructor that did not exist when the rules were written keeps everything: the object it
+                        # builds may capture its arguments, and what is known about them must survive inside it)
+                        cenv = {p: v for p, v in cenv.items() if len(p) < 2 or p[-1] in rd or p[-1] == "$type" or self._is_param_object(cenv.get(p[:-1] + ("$type",)))}
                     w1 = self._witness(w, ("call", callee.qual, f"{fi.module.relpath}:{node.lineno}"))
                     exits = self.run(callee, cenv, cs_in, stack + ((fi.qual, node.lineno),))
                     for ex in exits:
